@@ -10,7 +10,7 @@ STUBS = ['michelson_to_micheline (PLY parser) inside repl.py -> table lookup cel
 BOUNDS = {'quick': 'a session skeleton of 12 successful cells (declarations, EMPTY_BIG_MAP, UPDATE with symbolic values, DIP-protected stack manipulation, removal, BEGIN, two COMMITs) with '
                    'up to 2 failing cells inserted at solver-chosen positions; a failing cell is a solver-chosen prefix (every instruction position) of one of 7 cell bodies followed by FAILWITH, '
                    'optionally wrapped in DIP',
-          'thorough': 'up to 3 failing cells'}
+          'thorough': '2 failing cells with the first at every position of the skeleton'}
 OUTSIDE = ['cells outside the alphabet', 'parser failures (text is not modelled)']
 ASSUMPTIONS = ['oracle = the same session with the failing cells removed; compared after every successful cell: stack abstraction (incl. big_map ids, local entries, removed keys), '
                'protected-prefix counter, context counters and registries, and the lazy diff / result of every COMMIT']
@@ -264,8 +264,8 @@ def obligations(tier):
                   targets=TARGETS))
     obs.append(Ob('session/debug-mode/failing-cells=1', 'bvx', sym_session, conc_session, {'nfail': 1, 'debug': True}, timeout=300 if q else 3000,
                   bounds='the same with DEBUG 1 as the first cell (a failing cell then re-raises out of execute())', targets=TARGETS))
-    for nfail in ((2,) if q else (2, 3)):
-        for pos0 in range(0, 16, 1 if not q else 2):
+    for nfail in (2,):        # three failing cells did not finish within 40 minutes per obligation: outside the thorough tier too
+        for pos0 in (range(0, 16, 2) if q else (range(0, 16) if nfail == 2 else (0, 8))):       # sized by wall time
             obs.append(Ob(f'session/failing-cells={nfail}/first-at={pos0}', 'bvx', sym_session, conc_session, {'nfail': nfail, 'pos0': pos0}, timeout=300 if q else 3000,
                           bounds=f'{nfail} failing cells, the first before skeleton cell {pos0}, the others at solver-chosen later positions; 3 bodies, failure at start/middle/end',
                           targets=TARGETS))
